@@ -1100,6 +1100,18 @@ def call_builtin(ip, fn, args, kwargs, node=None):
                            args[0], args[1], node)
         if opn in ('inv', 'invert', 'not') and len(args) == 1:
             return unop(ip, 'Invert', args[0])
+        if opn == 'attrgetter' and len(args) == 1 and isinstance(args[0], str) and \
+                all(part.isidentifier() for part in args[0].split('.')):
+            # operator.attrgetter("a.b") is `lambda x: x.a.b`
+            import ast as _ast
+            lam = _ast.parse('lambda _x: _x.' + args[0], mode='eval').body
+            for sub in _ast.walk(lam):
+                if hasattr(sub, 'lineno') or isinstance(sub, (_ast.expr, _ast.stmt)):
+                    sub.lineno = getattr(node, 'lineno', ip.curline)
+                    sub.col_offset = 0
+            from .values import FuncRef as _FuncRef
+            from .interp import Env as _Env
+            return _FuncRef(lam, None, closure=_Env(), name='<attrgetter %s>' % args[0])
         if opn == 'itemgetter':
             return Unknown('itemgetter')
         return Unknown(name)
@@ -1939,7 +1951,7 @@ _HANDLERS = {
     'PriorityEncoder': _h_libobj('PriorityEncoder'), 'ClockDomain': _h_libobj('ClockDomain'),
     'ClockSignal': _h_clocksig('ClockSignal'), 'ResetSignal': _h_clocksig('ResetSignal'),
     'signed': _h_shape('signed'), 'unsigned': _h_shape('unsigned'),
-    'partial': _h_partial, 'len': _h_len, 'range': _h_range, 'int': _h_int,
+    'partial': _h_partial, 'len': _h_len, 'range': _h_range, 'int': _h_int, 'slice': _simple(slice, 'slice'),
     'float': _simple(float, 'float'), 'abs': _simple(abs, 'abs'), 'round': _simple(round, 'round'),
     'divmod': _simple(divmod, 'divmod'), 'pow': _simple(pow, 'pow'), 'bytes': _simple(bytes, 'bytes'),
     'bytearray': _simple(bytearray, 'bytearray'), 'chr': _simple(chr, 'chr'), 'ord': _simple(ord, 'ord'),
